@@ -759,7 +759,7 @@ func runCall(c *Case, ci int, kb *ast.KnowledgeBase, em *Emitter, watchdog time.
 		ret["what"] = fmt.Sprint(r.pan)
 	default:
 		cls, rule := classify(r.err, ctx)
-		if cls == "other" && cc.Mode == "exec" {
+		if cls == "other" {
 			var names []string
 			for n := range kb.RuleEntries {
 				names = append(names, n)
